@@ -239,8 +239,9 @@ def canon_ent_text(ent, cs: bool, label: bool) -> dict:
     }
 
 
-def canon_ent_bin(ent, deep: bool = False, _seen: tuple = ()) -> dict:
-    """Everything the binary format carries.  deep=True also walks the (resolved) base objects."""
+def canon_ent_bin(ent, deep: bool = False, _seen: tuple = (), implicit_base: bool = False) -> dict:
+    """Everything the binary format carries.  deep=True also walks the (resolved) base objects.
+    implicit_base (originals only): a class written without bases is based on _CBaseEntity_ after loading."""
     from srctools.fgd import EntityDef
     bases = []
     for b in ent.bases:
@@ -253,7 +254,7 @@ def canon_ent_bin(ent, deep: bool = False, _seen: tuple = ()) -> dict:
                 bases.append(canon_ent_bin(b, True, _seen + (ent.classname,)))
         else:
             bases.append(_base_name(b))
-    if not bases and ent.classname.casefold() != CBASE.casefold() and not deep:
+    if implicit_base and not bases and ent.classname.casefold() != CBASE.casefold():
         bases = [CBASE]   # engine format: everything is based on _CBaseEntity_
     return {
         'class': ent.classname,
@@ -1027,10 +1028,10 @@ def execute_binary(desc, ctx):
         ctx.label('generated', *sorted(stats.labels))
         keys = [k for k in fgd.entities]
         order = [keys[i % len(keys)] for i in desc['order']]
-    want = {key: canon_ent_bin(ent) for key, ent in fgd.entities.items()}
+    want = {key: canon_ent_bin(ent, implicit_base=True) for key, ent in fgd.entities.items()}
     ctx.nontrivial(True)
     data = roundtrip_binary(fgd)
-    after = {key: canon_ent_bin(ent) for key, ent in fgd.entities.items()}
+    after = {key: canon_ent_bin(ent, implicit_base=True) for key, ent in fgd.entities.items()}
     ctx.check(after == want, 'serialise_mutates', 'serialise(deepcopy(f)) changed f: ' + first_diff(want, after))
 
     db = unserialise(io.BytesIO(data))
